@@ -163,6 +163,7 @@ impl Hook for E1Hook {
                 let n = self.rng.lock().unwrap().range(0, *max as u64) as u32;
                 if n > 0 {
                     self.ctx.count("probe.apoint_yielded");
+                    self.ctx.count("fault.schedule_point_yield");
                 }
                 n
             }
